@@ -299,3 +299,10 @@ def _class_name_builder(ts):
 def class_name(cls):
     """cls.__name__ of a class held as an opaque value."""
     return cls.__name__
+
+
+@_native('(str, str) -> bool', _app_builder('py_fnmatch', ['String', 'String'], 'Bool'))
+def fnmatch(name, pat):
+    """fnmatch.fnmatch(name, pat) (uninterpreted; the same symbol as the model of the library call)."""
+    import fnmatch as _f
+    return _f.fnmatch(name, pat)
